@@ -77,6 +77,9 @@ class PathEval:
     def place(self, env, pl):
         l = pl["l"]
         t = env.get(l)
+        if env.get(("escaped", l)):
+            # a `&mut` to this local was captured by a closure: the closure may have written it behind our back
+            t = ("unknown", "escaped _%d" % l)
         if t is None:
             if 1 <= l <= self.body.argc:
                 t = ("arg", l)
@@ -209,6 +212,15 @@ class PathEval:
             blk = self.body.blocks[bb]
             for s in blk["stmts"]:
                 if s["k"] == "assign":
+                    rv = s["rv"]
+                    # `_r = &mut _x` ... `closure { .., move _r }`: the closure can write _x whenever it runs
+                    if "ref" in rv and rv.get("mut") and "p" not in rv["ref"] and "p" not in s["lhs"]:
+                        env[("mutref", s["lhs"]["l"])] = rv["ref"]["l"]
+                    if "agg" in rv and (rv["agg"].get("closure") or rv["agg"].get("coroutine")):
+                        for o in rv["ops"]:
+                            pl = o.get("move") or o.get("copy")
+                            if pl and "p" not in pl and ("mutref", pl["l"]) in env:
+                                env[("escaped", env[("mutref", pl["l"])])] = True
                     self.assign(env, s["lhs"], self.rvalue(env, s["rv"]))
                 elif s["k"] == "setdiscr":
                     env[s["lhs"]["l"]] = ("agg", "setdiscr", s["variant"], ())
